@@ -36,14 +36,25 @@ Definition succ_ok (c : cert) (m : bool) (pc' h' : Z) : bool :=
 
 (** * What one instruction demands and where it continues *)
 
-Definition rd16 (p : program) (pc : Z) : option Z :=
-  match byte_at p pc, byte_at p (pc + 1) with
+(* The instruction bytes are read through `fetch : Z -> option Z`.  The soundness proof instantiates it with
+   VM.byte_at; the executable checker uses an equal but faster map-based function (fetch_map below). *)
+Definition rd16 (fetch : Z -> option Z) (pc : Z) : option Z :=
+  match fetch pc, fetch (pc + 1) with
   | Some lo, Some hi => Some (lo + 256 * hi)
   | _, _ => None
   end.
 
-Definition const_in (p : program) (idx : Z) : bool :=
-  match nth_error (p_consts p) (Z.to_nat idx) with Some _ => true | None => false end.
+Definition const_in (consts : list val) (idx : Z) : bool :=
+  match nth_error consts (Z.to_nat idx) with Some _ => true | None => false end.
+
+Fixpoint build_from (l : list Z) (k : positive) (m : PM.t Z) : PM.t Z :=
+  match l with
+  | [] => m
+  | b :: r => build_from r (Pos.succ k) (PM.add k b m)
+  end.
+Definition code_map (code : list Z) : PM.t Z := build_from code 1%positive (PM.empty Z).
+Definition fetch_map (cm : PM.t Z) (pc : Z) : option Z :=
+  if pc <? 0 then None else PM.find (Z.to_pos (pc + 1)) cm.
 
 (* number of operand bytes, from the generated table *)
 Definition opwidth (o : opcode) : Z := Z.of_nat (fold_right Nat.add 0%nat (operands o)).
@@ -54,8 +65,9 @@ Definition guard {A} (b : bool) (x : A) : option A := if b then Some x else None
    stack; Some l: acceptable, and l lists the possible next pcs in the SAME frame together with the lower
    bound that holds there.  (The entry of a called function is not listed: it is reached through a
    function value, see const_val_ok.  After `Call argc` the listed successor is the return address.) *)
-Definition instr_succs (p : program) (pc : Z) (m : bool) (h : Z) : option (list (Z * Z)) :=
-  match byte_at p pc with
+Definition instr_succs (fetch : Z -> option Z) (len : Z) (consts : list val)
+  (pc : Z) (m : bool) (h : Z) : option (list (Z * Z)) :=
+  match fetch pc with
   | None => None
   | Some b =>
       match opcode_of_byte b with
@@ -64,41 +76,41 @@ Definition instr_succs (p : program) (pc : Z) (m : bool) (h : Z) : option (list 
           let nxt := pc + 1 + opwidth op in
           (* all operand bytes inside the code (widths from Tables.operands; the explicit operand reads
              below repeat this for the reads VM.step really performs) *)
-          if negb (nxt <=? zlength (p_code p)) then None
+          if negb (nxt <=? len) then None
           else
             match op with
             | OConst =>
-                match rd16 p (pc + 1) with
-                | Some idx => guard (const_in p idx) [(nxt, h + 1)]
+                match rd16 fetch (pc + 1) with
+                | Some idx => guard (const_in consts idx) [(nxt, h + 1)]
                 | None => None
                 end
             | OSetGlobal =>
-                match rd16 p (pc + 1) with
+                match rd16 fetch (pc + 1) with
                 | Some _ => guard (1 <=? h) [(nxt, h - 1)]
                 | None => None
                 end
             | OGetGlobal =>
-                match rd16 p (pc + 1) with
+                match rd16 fetch (pc + 1) with
                 | Some _ => Some [(nxt, h + 1)]
                 | None => None
                 end
             | OSetLocal =>
-                match rd16 p (pc + 1) with
+                match rd16 fetch (pc + 1) with
                 | Some idx => guard ((1 <=? h) && (0 <=? idx) && (idx <? h - 1)) [(nxt, h - 1)]
                 | None => None
                 end
             | OGetLocal =>
-                match rd16 p (pc + 1) with
+                match rd16 fetch (pc + 1) with
                 | Some idx => guard ((0 <=? idx) && (idx <? h)) [(nxt, h + 1)]
                 | None => None
                 end
             | OJump =>
-                match rd16 p (pc + 1) with
+                match rd16 fetch (pc + 1) with
                 | Some pos => Some [(pos, h)]
                 | None => None
                 end
             | OJumpIfFalse =>
-                match rd16 p (pc + 1) with
+                match rd16 fetch (pc + 1) with
                 | Some pos => guard (1 <=? h) [(nxt, h - 1); (pos, h - 1)]
                 | None => None
                 end
@@ -106,12 +118,12 @@ Definition instr_succs (p : program) (pc : Z) (m : bool) (h : Z) : option (list 
             | ONull | OTrue | OFalse => Some [(nxt, h + 1)]
             | ONot | ONegate => guard (1 <=? h) [(nxt, h)]
             | OCall =>
-                match byte_at p (pc + 1) with
+                match fetch (pc + 1) with
                 | Some argc => guard ((0 <=? argc) && (argc + 1 <=? h)) [(nxt, h - argc)]
                 | None => None
                 end
             | OCallBuiltin =>
-                match byte_at p (pc + 1), byte_at p (pc + 2) with
+                match fetch (pc + 1), fetch (pc + 2) with
                 | Some bb, Some argc =>
                     match builtin_of_byte bb with
                     | Some _ => guard ((0 <=? argc) && (argc <=? h)) [(nxt, h - argc + 1)]
@@ -122,7 +134,7 @@ Definition instr_succs (p : program) (pc : Z) (m : bool) (h : Z) : option (list 
             | OReturnValue => guard (m && (1 <=? h)) []
             | OReturn => guard m []
             | OArray =>
-                match rd16 p (pc + 1) with
+                match rd16 fetch (pc + 1) with
                 | Some n => guard ((0 <=? n) && (n <=? h)) [(nxt, h - n + 1)]
                 | None => None
                 end
@@ -138,9 +150,9 @@ Definition instr_succs (p : program) (pc : Z) (m : bool) (h : Z) : option (list 
                 | None =>
                     match assoc opcode_eqb op fused_dispatch with
                     | Some _ =>
-                        match rd16 p (pc + 1), rd16 p (pc + 3) with
+                        match rd16 fetch (pc + 1), rd16 fetch (pc + 3) with
                         | Some li, Some ci =>
-                            guard ((0 <=? li) && (li <? h) && const_in p ci) [(nxt, h + 1)]
+                            guard ((0 <=? li) && (li <? h) && const_in consts ci) [(nxt, h + 1)]
                         | _, _ => None
                         end
                     | None => None
@@ -150,9 +162,10 @@ Definition instr_succs (p : program) (pc : Z) (m : bool) (h : Z) : option (list 
       end
   end.
 
-Definition check_instr (p : program) (c : cert) (pc : Z) (e : entry) : bool :=
+Definition check_instr (fetch : Z -> option Z) (len : Z) (consts : list val)
+  (c : cert) (pc : Z) (e : entry) : bool :=
   let '(m, h) := e in
-  match instr_succs p pc m h with
+  match instr_succs fetch len consts pc m h with
   | Some l => forallb (fun '(pc', h') => succ_ok c m pc' h') l
   | None => false
   end.
@@ -167,7 +180,9 @@ Definition const_val_ok (c : cert) (v : val) : bool :=
 
 (** * The checker *)
 Definition check (p : program) (c : cert) : bool :=
-  forallb (fun '(k, e) => check_instr p c (Zpos k - 1) e) (PM.elements c)
+  let fetch := fetch_map (code_map (p_code p)) in
+  let len := zlength (p_code p) in
+  forallb (fun '(k, e) => check_instr fetch len (p_consts p) c (Zpos k - 1) e) (PM.elements c)
   && match lookup c 0 with Some (false, h) => h <=? 0 | _ => false end
   && forallb (const_val_ok c) (p_consts p).
 
@@ -176,7 +191,8 @@ Definition check (p : program) (c : cert) : bool :=
 Definition fun_entries (ks : list val) : list (Z * entry) :=
   flat_map (fun v => match v with VFun ip n => [(ip, (true, n))] | _ => [] end) ks.
 
-Fixpoint infer_loop (fuel : nat) (p : program) (wl : list (Z * entry)) (c : cert) : option cert :=
+Fixpoint infer_loop (fuel : nat) (fetch : Z -> option Z) (len : Z) (consts : list val)
+  (wl : list (Z * entry)) (c : cert) : option cert :=
   match fuel with
   | O => None
   | S f =>
@@ -186,14 +202,14 @@ Fixpoint infer_loop (fuel : nat) (p : program) (wl : list (Z * entry)) (c : cert
           if pc <? 0 then None
           else
             let visit :=
-              match instr_succs p pc m h with
-              | Some l => infer_loop f p (map (fun '(pc', h') => (pc', (m, h'))) l ++ wl') (PM.add (key pc) (m, h) c)
+              match instr_succs fetch len consts pc m h with
+              | Some l => infer_loop f fetch len consts (map (fun '(pc', h') => (pc', (m, h'))) l ++ wl') (PM.add (key pc) (m, h) c)
               | None => None
               end in
             match PM.find (key pc) c with
             | Some (m', h') =>
                 if negb (Bool.eqb m m') then None
-                else if h' <=? h then infer_loop f p wl' c
+                else if h' <=? h then infer_loop f fetch len consts wl' c
                 else visit
             | None => visit
             end
@@ -203,7 +219,8 @@ Fixpoint infer_loop (fuel : nat) (p : program) (wl : list (Z * entry)) (c : cert
 Definition infer_fuel (p : program) : nat := (64 * S (length (p_code p)))%nat.
 
 Definition infer (p : program) : option cert :=
-  infer_loop (infer_fuel p) p ((0, (false, 0)) :: fun_entries (p_consts p)) (PM.empty _).
+  infer_loop (infer_fuel p) (fetch_map (code_map (p_code p))) (zlength (p_code p)) (p_consts p)
+             ((0, (false, 0)) :: fun_entries (p_consts p)) (PM.empty _).
 
 Definition verify (p : program) : bool :=
   match infer p with
